@@ -1,7 +1,7 @@
 (* C03: proofs about the wrapper model Sys/TopicLife.v (deletion window, suspension, me/fnd/sys). *)
 From Coq Require Import ZArith NArith List Bool Lia.
 From Tinode Require Import Base.Util Pure.Acs Sys.Topic Sys.TopicTac Sys.TopicFrame Sys.TopicNum Sys.TopicOut
-  Sys.TopicNumThm Sys.TopicPub Sys.TopicLife.
+  Sys.TopicNumThm Sys.TopicPub Sys.TopicMarks Sys.TopicMeta Sys.TopicCoh Sys.TopicLife.
 Import ListNotations.
 Open Scope Z_scope.
 
@@ -271,5 +271,113 @@ Lemma suspend_marks x u b c a : ca (xb x) = Some c -> c_owner c = u -> alookup u
 Proof.
   intros CA OW US MS. unfold suspend. cbn [call fails negb]. rewrite US, MS.
   destruct b; cbn [Bool.eqb negb]; rewrite CA, OW, N.eqb_refl; reflexivity.
+Qed.
+
+(* ---------- the cached grant is the stored grant, along every history of the wrapper model ---------- *)
+Definition xaccepts_stored (x : xstate) (sid : N) : bool :=
+  match x_del x with
+  | Some _ => false
+  | None => negb (x_ro x) && accepts_stored sm (xb x) sid
+  end.
+
+Lemma xaccepts_stored_eq x sid : cohx (xb x) -> xaccepts x sid = xaccepts_stored x sid.
+Proof.
+  intros C. unfold xaccepts, xaccepts_stored. destruct (x_del x); [reflexivity|].
+  f_equal. unfold accepts. apply (accepts_stored_eq sm (xb x) sid C).
+Qed.
+
+(* the same two triggers as for the group-topic model, looked at in the state in which the request is served *)
+Definition xsafe_step (x : xstate) (e : xev) : bool :=
+  match e with
+  | EBase f o =>
+    match x_del x, o with
+    | Some _, OPub _ _ _ => true
+    | _, _ => safe_step sm (xb (fst (del_finish x))) (f, o)
+    end
+  | _ => true
+  end.
+
+Lemma cohx_drop b n : cohx b -> cohx (mkState (st b) None n).
+Proof. unfold cohx. cbn. destruct (ca b); [intros [W _]; exact W|auto]. Qed.
+Lemma cohx_ncalls s c n n' : cohx (mkState s c n) -> cohx (mkState s c n').
+Proof. auto. Qed.
+Lemma cohx_wipe s n : cohx (mkState (wipe s) None n).
+Proof. unfold cohx, wf_store. cbn. constructor. Qed.
+Lemma cohx_after_crash f x : cohx (xb x) -> cohx (xb (after_crash f x)).
+Proof. destruct f; cbn [after_crash]; auto. intros C. unfold mem_reset. cbn [xb]. now apply cohx_drop. Qed.
+
+Lemma cohx_del_finish x : cohx (xb x) -> cohx (xb (fst (del_finish x))).
+Proof.
+  intros C. unfold del_finish. destruct (x_del x) as [[sid f]|]; [|exact C].
+  destruct (fails f 1); cbn [fst]; apply cohx_after_crash; cbn [xb set_del set_ro set_b].
+  - destruct (xb x) as [s c n]. exact C.
+  - apply cohx_wipe.
+Qed.
+
+Lemma xb_suspend x f u b : xb (suspend x f u b) = xb x.
+Proof. unfold suspend. repeat break_match; reflexivity. Qed.
+
+Lemma cohx_publish_sys x f sid c : cohx (xb x) -> cohx (xb (fst (publish_sys sm x f sid c))).
+Proof.
+  intros C. unfold publish_sys. repeat break_match; cbn [fst]; try exact C; apply cohx_after_crash; exact C.
+Qed.
+
+Lemma cohx_base_step x f o : safe_step sm (xb x) (f, o) = true -> cohx (xb x) -> cohx (xb (fst (base_step x f o))).
+Proof.
+  intros SF C. unfold TopicLife.base_step.
+  destruct (if x_ro x && x_attached x (op_sid o) then _ else None) as [code|]; cbn [fst].
+  - apply cohx_after_crash. cbn [xb set_b]. destruct f; [destruct (xb x); exact C|destruct (xb x); exact C|].
+    apply (cohx_drop (xb x) 0 C).
+  - pose proof (step_f_cohx dr nr sm (xb x) (f, o) SF C) as C1.
+    destruct (step_f dr nr sm (xb x) (f, o)) as [b1 o1]. cbn [fst] in *.
+    assert (C2 : cohx (xb (match ca b1 with None => set_ro false (set_b b1 x) | Some _ => set_b b1 x end)))
+      by (destruct (ca b1); exact C1).
+    destruct o; try (apply cohx_after_crash; exact C2).
+    unfold mem_reset. cbn [xb]. apply cohx_drop. exact C2.
+Qed.
+
+Lemma cohx_xcore x e : (match e with EBase f o => safe_step sm (xb x) (f, o) | _ => true end) = true ->
+  cohx (xb x) -> cohx (xb (fst (xcore x e))).
+Proof.
+  intros SF C. destruct e; cbn [TopicLife.xcore].
+  - now apply cohx_base_step.
+  - repeat break_match; exact C.
+  - exact C.
+  - cbn [fst]. apply cohx_after_crash. rewrite xb_suspend. exact C.
+  - repeat break_match; exact C.
+  - repeat break_match; exact C.
+  - exact C.
+  - exact C.
+  - now apply cohx_publish_sys.
+Qed.
+
+Lemma cohx_xstep x e : xsafe_step x e = true -> cohx (xb x) -> cohx (xb (fst (xstep x e))).
+Proof.
+  intros SF C. unfold TopicLife.xstep.
+  assert (G : (match e with EBase f o => safe_step sm (xb (fst (del_finish x))) (f, o) | _ => true end) = true ->
+              cohx (xb (fst (let '(x1, o1) := del_finish x in let '(x2, o2) := xcore x1 e in (x2, o1 ++ o2))))).
+  { intros SF'. pose proof (cohx_del_finish x C) as C1. destruct (del_finish x) as [x1 o1]. cbn [fst] in *.
+    pose proof (cohx_xcore x1 e SF' C1) as C2. destruct (xcore x1 e) as [x2 o2]. exact C2. }
+  destruct (x_del x) as [d|] eqn:D.
+  - destruct e; try (apply G; exact SF).
+    destruct o; try (apply G; unfold xsafe_step in SF; rewrite D in SF; exact SF).
+    cbn [fst xb set_b]. destruct (xb x); exact C.
+  - apply cohx_xcore; [|exact C]. destruct e; auto.
+    unfold xsafe_step in SF. rewrite D in SF. unfold del_finish in SF. rewrite D in SF. cbn [fst] in SF.
+    destruct o; exact SF.
+Qed.
+
+Fixpoint xsafe_run (x : xstate) (h : list xev) : Prop :=
+  match h with
+  | [] => True
+  | e :: r => xsafe_step x e = true /\ xsafe_run (fst (xstep x e)) r
+  end.
+
+Lemma cohx_xrun h : forall x, xsafe_run x h -> cohx (xb x) -> cohx (xb (fst (xrun x h))).
+Proof.
+  induction h as [|e h IH]; intros x SR C; cbn [TopicLife.xrun fst]; [exact C|].
+  destruct SR as [SF SR]. pose proof (cohx_xstep x e SF C) as C1.
+  destruct (xstep x e) as [x1 o1]. cbn [fst] in *.
+  specialize (IH x1 SR C1). destruct (xrun x1 h) as [x2 os]. exact IH.
 Qed.
 End LifeProofs.
